@@ -8,6 +8,7 @@ import (
 	"sort"
 	"strings"
 
+	tpl "code.gopub.tech/tpl"
 	"code.gopub.tech/tpl/exp"
 	"code.gopub.tech/tpl/html"
 	"code.gopub.tech/tpl/types"
@@ -255,6 +256,40 @@ func execOne(tpl types.Template, run tmplRun) (res runResult) {
 		res.class = renderClass(err)
 	}
 	return res
+}
+
+// helperAgrees: tpl.RenderToString and tpl.RenderToBytes give what Execute gives (output also when the render fails)
+func helperAgrees(m types.TemplateManager, name string, run tmplRun, want runResult) (why string) {
+	defer func() {
+		if x := recover(); x != nil {
+			why = fmt.Sprintf("PANIC in RenderToString/RenderToBytes: %v", x)
+		}
+	}()
+	data := map[string]any{}
+	for k, v := range run.data {
+		data[k] = v
+	}
+	for k, v := range userFuncs(&CallLog{}) {
+		data[k] = v
+	}
+	t1, _ := m.GetTemplate(name)
+	s, e1 := tpl.RenderToString(t1, data)
+	t2, _ := m.GetTemplate(name)
+	b, e2 := tpl.RenderToBytes(t2, data)
+	c1, c2 := "", ""
+	if e1 != nil {
+		c1 = renderClass(e1)
+	}
+	if e2 != nil {
+		c2 = renderClass(e2)
+	}
+	if s != want.out || c1 != want.class {
+		return fmt.Sprintf("RenderToString gives %q (error class %q), Execute %q (%q)", s, c1, want.out, want.class)
+	}
+	if string(b) != want.out || c2 != want.class {
+		return fmt.Sprintf("RenderToBytes gives %q (error class %q), Execute %q (%q)", b, c2, want.out, want.class)
+	}
+	return ""
 }
 
 // implRender loads the files, gets the template and runs the history on ONE template object.
@@ -550,6 +585,10 @@ func genTmplCase(r *Rng, out *outFiles) {
 			fresh := execOne(tpl, run)
 			if fresh.line() != rs[i].line() && c16 == "" {
 				c16 = fmt.Sprintf("run %d on a used template object gives %s, on a fresh object %s", i, rs[i].line(), fresh.line())
+			}
+			// the package-level helpers RenderToString / RenderToBytes are Execute into a buffer: same output, same error
+			if i == 0 && run.budget < 0 && c16 == "" {
+				c16 = helperAgrees(m, name, run, fresh)
 			}
 			// C12: with a failing writer, what was written is a prefix of the unlimited output
 			if run.budget >= 0 && c12 == "" {
